@@ -551,6 +551,8 @@ def run_driver(binary, executions, trace_path, timeout=600, env=None, args=(), p
                                             ("ubsan" if rc == 98 or "runtime error" in out else "crash rc=%d" % rc))
         if "DRIVER-HANG" in out:
             kind = "hang"
+        if "DRIVER-ERROR" in out:
+            kind = "driver-error"       # the harness refused (a limit of the harness, a malformed op): a broken check, never a verdict
         res.crashes.append((idx, out[-3000:], kind))
         if len(res.crashes) > 40 or time.time() > t_end:
             break
@@ -775,6 +777,9 @@ class Ctx:
 
     def report(self, key, replay_path, text):
         """Record a property-level failure on the real code; known findings are matched by key."""
+        if key.endswith(":driver-error"):
+            self.broken.append("the harness refused an operation (%s): %s" % (key, text[-600:]))
+            return
         if key in self.known:
             if key not in self.known_hits:
                 self.known_hits[key] = replay_path
